@@ -208,10 +208,11 @@ class Gen:
       X = expr(nm(seg))
       # ---- how the child's input is driven
       r = rng.random()
+      wr_blk = None
       if r < 0.55:
         cd.lines.append(f'{X}.in_ //= {expr(src)}'); cd.facts.append(('edge', ('s', nm(seg, 'in_')), ('s', src)))
       elif r < 0.8:
-        b = f'up_wr{cd.nblk}'; cd.nblk += 1
+        b = wr_blk = f'up_wr{cd.nblk}'; cd.nblk += 1
         cd.blk(b, 'up', [f'{X}.in_ @= {expr(src)}'], [src], [nm(seg, 'in_')]); comb.append((b, {src}, {nm(seg, 'in_')})); s.features.add('parent-writes-child-port')
       else:
         v = rng.randrange(256)
@@ -242,11 +243,15 @@ class Gen:
         if rng.random() < 0.3:
           cd.lines.append(f's.add_constraints( M({X}.recv) < U({b}) )'); cd.facts.append(('M', ('m', nm(seg, 'recv')), ('b', b), 'False'))
           s.features.add('parent-M-on-child-method')
-      if rng.random() < 0.08:
-        # a parent-level value constraint on a child's port (kept by object identity in the parent)
-        b0 = next((b for b, r_, w_ in comb if nm(tw) in w_), None)
-        if b0:
-          cd.lines.append(f's.add_constraints( U({b0}) < RD(s.{tw}) )'); cd.facts.append(('RDU', nm(tw), '>', b0))
+      if wr_blk and rng.random() < 0.25:
+        # a value constraint declared by the parent on a child's port: the block feeding the child runs before every reader of its output
+        cd.lines.append(f's.add_constraints( U({wr_blk}) < RD({X}.out) )'); cd.facts.append(('RDU', nm(seg, 'out'), '>', wr_blk))
+        s.features.add('parent-constraint-on-child-port')
+      if c.slots and rng.random() < 0.2:
+        # a block of this component reads a port of a GRANDchild (legal: any port may be read)
+        gseg = rng.choice(c.slots)[0]
+        b = f'up_gr{cd.nblk}'; cd.nblk += 1; cd.sig(f'g{cd.nblk}', 'Wire', 8)
+        cd.blk(b, 'up', [f's.g{cd.nblk} @= {X}{expr(nm(gseg))[1:]}.out'], [nm(seg, gseg, 'out')], [nm(f'g{cd.nblk}')]); s.features.add('grandparent-reads-port')
       src = nm(tw)
     if rng.random() < 0.5:
       cd.lines.append(f's.out //= {expr(src)}'); cd.facts.append(('edge', ('s', nm('out')), ('s', src)))
@@ -274,6 +279,15 @@ def instantiate(cd, table, pre=()):
     c2 = table.get(pre + (seg,), c)
     out += instantiate(c2, table, pre + (seg,))
   return out
+
+def refs_of(f):
+  k = f[0]
+  if k in ('sig', 'meth'): return [f[1]]
+  if k in ('rd', 'wr', 'call'): return [f[2]]
+  if k in ('RDU', 'WRU'): return [f[1]]
+  if k == 'M': return [m[1] for m in (f[1], f[2]) if m[0] == 'm']
+  if k == 'edge': return [e[1] for e in (f[1], f[2]) if e[0] == 's']
+  return []
 
 def coq_name(n): return coq_list([f'"{x}"' for x in n])
 def coq_ep(e): return f'(ESig {coq_name(e[1])})' if e[0] == 's' else f'(EConst "{e[1]}")'
@@ -385,7 +399,7 @@ def scan_residue(top, removed_ids):
   topattrs = set(vars(top._dsl))
   for c in top.get_all_components():
     for attr, v in vars(c._dsl).items():
-      if attr in ('parent_obj', 'elaborate_top', 'args', 'kwargs', 'param_tree') or (c is top and attr.startswith('all_')): continue
+      if c is top or attr in ('parent_obj', 'elaborate_top', 'args', 'kwargs', 'param_tree'): continue
       walk(v, 'component._dsl.' + attr)
   live = top._collect_all_single(lambda x: True)
   for o in live:
@@ -406,6 +420,20 @@ def drive(top, seed, cycles=20):
 VIEW_OF = {'comp': 'all_components', 'sig': 'all_signals', 'meth': 'all_method_ports', 'blk': 'update_blocks', 'rd': 'upblk_reads', 'wr': 'upblk_writes',
            'call': 'upblk_calls', 'UU': 'U_U_constraints', 'RDU': 'RD_U_constraints', 'WRU': 'WR_U_constraints', 'M': 'M_constraints', 'adj': 'adjacency',
            'net': 'value_nets', 'mnet': 'method_nets', 'obj': 'all_named_objects', 'child': 'child_components', 'level': 'component_level'}
+
+def row_owner(row):
+  v = row[0]
+  if v in ('blk', 'rd', 'wr', 'call', 'UU'): return row[1]
+  if v in ('RDU', 'WRU'): return row[3]
+  if v == 'M': return next((x.split(':')[0] for x in row[1:3] if ':' in x), row[1])
+  return None
+
+def scope(row, slots):
+  """is the entry owned by a component of a replaced slot ('in-slot'), by a surviving component ('outside-slot'), or unowned"""
+  o = row_owner(row)
+  if o is None: return ''
+  if '<no-host>' in o: return ':owner-removed'
+  return ':in-slot' if any(o == s_ or o.startswith(s_ + '.') for s_ in slots) else ':outside-slot'
 
 def classify(row, side):
   stale = any(isinstance(x, str) and ('<deleted>' in x or '<no-host>' in x) for x in row) or \
@@ -449,7 +477,7 @@ def run_history(ctx, tag, src, history, params, cases, meta, expect_hier=None, f
         table[slot] = (lambda c_, k_: (lambda *a, **kw: c_(k_)))(newc, k)
     except Exception as e:
       tb = traceback.extract_tb(e.__traceback__)[-1]
-      ctx.violation(f'C15:crash:{type(e).__name__}:{tb.name}',
+      ctx.violation(f'C15:replace-raises-{type(e).__name__}:{tb.name}',
                     f'{tag}: {"replace_component" if mode == "cls" else "replace_component_with_obj"}({slot}, {cname}) raises {type(e).__name__}: {str(e)[:200]} (in {tb.name}, {os.path.basename(tb.filename)}:{tb.lineno}); '
                     f'building the same design directly succeeds', dict(replay, failing_step=[slot, mode, cname, k], traceback=traceback.format_exc()[-1500:]))
       ok = False; break
@@ -469,7 +497,7 @@ def run_history(ctx, tag, src, history, params, cases, meta, expect_hier=None, f
           [(r, 'only-scratch') for r in sorted((rows_s | ex_s) - (rows_r | ex_r), key=repr)]
   seen = set()
   for row, side in diffs:
-    key = f'C15:{classify(row, side)}:{VIEW_OF.get(row[0], row[0])}'
+    key = f'C15:{classify(row, side)}-{VIEW_OF.get(row[0], row[0])}{scope(row, [h[0] for h in history]) or ":entry"}'
     if key in seen: continue
     seen.add(key)
     same = [r for r, s_ in diffs if s_ == side and r[0] == row[0]]
@@ -482,7 +510,7 @@ def run_history(ctx, tag, src, history, params, cases, meta, expect_hier=None, f
   for objs in removed: rid |= {id(x) for x in objs}
   # objects that were re-used (replace_component_with_obj keeps nothing of the old one) are not exempt: all removed objects count
   for where in sorted(scan_residue(top, rid)):
-    ctx.violation(f'C15:residue:{where}', f'{tag}: an object of a removed component is still referenced from {where} after the replacement',
+    ctx.violation(f'C15:residue-{where.split(".")[-1]}:{where}', f'{tag}: an object of a removed component is still referenced from {where} after the replacement',
                   dict(replay, location=where))
   # simulation
   seed = ctx.rng.randrange(1 << 30)
@@ -495,11 +523,11 @@ def run_history(ctx, tag, src, history, params, cases, meta, expect_hier=None, f
       tr_r = drive(top, seed)
       d = sc.first_diff(tr_r, tr_s)
       if d or len(tr_r) != len(tr_s) or set(tr_r[0]) != set(tr_s[0]):
-        ctx.violation('C15:sim:trace', f'{tag}: the replaced design and the direct build simulate differently: first difference {d}; signal sets differ: {sorted(set(tr_r[0]) ^ set(tr_s[0]))[:4]}',
+        ctx.violation('C15:sim-trace:differs', f'{tag}: the replaced design and the direct build simulate differently: first difference {d}; signal sets differ: {sorted(set(tr_r[0]) ^ set(tr_s[0]))[:4]}',
                       dict(replay, first_difference=d, input_seed=seed))
     except Exception as e:
       tb = traceback.extract_tb(e.__traceback__)[-1]
-      ctx.violation(f'C15:sim:crash:{type(e).__name__}:{tb.name}', f'{tag}: the replaced design cannot be simulated ({type(e).__name__}: {str(e)[:150]} in {tb.name}, {os.path.basename(tb.filename)}:{tb.lineno}) while the direct build simulates',
+      ctx.violation(f'C15:sim-crash-{type(e).__name__}:{tb.name}', f'{tag}: the replaced design cannot be simulated ({type(e).__name__}: {str(e)[:150]} in {tb.name}, {os.path.basename(tb.filename)}:{tb.lineno}) while the direct build simulates',
                     dict(replay, traceback=traceback.format_exc()[-1500:]))
   for f in ('/tmp/upblk-dag.gv', '/tmp/upblk-dag.gv.pdf'):
     if os.path.exists(f): os.remove(f)
@@ -541,7 +569,10 @@ def random_history(ctx, g, j):
   H0 = instantiate(g.top, {})
   nrep = rng.choice([1, 1, 2, 2, 3, 4])
   for step in range(nrep):
-    comps = [n for n, _ in instantiate(g.top, table) if n]
+    inst = instantiate(g.top, table)
+    # a slot X is pinned while its parent refers to X.Y...: a replacement of X would have to expose the sub-slot Y as well
+    pinned = {n + r[:1] for n, facts in inst for f in facts for r in refs_of(f) if len(r) >= 3 and not r[1].startswith('[')}
+    comps = [n for n, _ in inst if n and n not in pinned]
     if not comps: break
     if history and rng.random() < 0.3: slot = slot_name(history[-1][0])          # the same slot again
     elif history and rng.random() < 0.25:
@@ -630,6 +661,42 @@ class T1c( Component ):
     s.a = pick( s, "a", Ac )( 1 )
     s.a.in_ //= s.in_
     s.out //= s.a.out
+class Bm( Component ):
+  def construct( s, k=1, p=0 ):
+    s.in_ = InPort( 8 ); s.out = OutPort( 8 ); s.recv = CalleePort( method=s.recv_ ); s.acc = 0
+    @update
+    def up_y():
+      s.out @= s.in_ + 2
+  def recv_( s, v ):
+    s.acc = v
+class T4( Component ):
+  def construct( s ):
+    s.in_ = InPort( 8 ); s.out = OutPort( 8 )
+    s.a = pick( s, "a", Bm )( 1 )
+    s.a.in_ //= s.in_
+    s.out //= s.a.out
+    @update_once
+    def up_call():
+      s.a.recv( 1 )
+    s.add_constraints( M(s.a.recv) < U(up_call) )
+class T5( Component ):
+  def construct( s ):
+    s.in_ = InPort( 8 ); s.out = OutPort( 8 )
+    s.a = pick( s, "a", B )( 1 )
+    @update
+    def up_wr():
+      s.a.in_ @= s.in_
+    s.out //= s.a.out
+    s.add_constraints( U(up_wr) < RD(s.a.out) )
+class T6( Component ):
+  def construct( s ):
+    s.in_ = InPort( 8 ); s.out = OutPort( 8 ); s.g = Wire( 8 )
+    s.p = pick( s, "p", T1 )()
+    s.p.in_ //= s.in_
+    s.out //= s.p.out
+    @update
+    def up_g():
+      s.g @= s.p.a.out
 '''
 DIRECTED = [
   # (tag, top class, history, set_param)
@@ -639,6 +706,9 @@ DIRECTED = [
   ('D-parent-connects-slice-of-child-port', 'T2', [('s.a', 'cls', 'B', None)], []),
   ('D-list-slot-with-set_param', 'T3', [('s.l[0]', 'cls', 'B', None)], [('top.l[0].construct', {'p': 3})]),
   ('D-list-slot', 'T3', [('s.l[1]', 'cls', 'B', None), ('s.l[1]', 'obj', 'B', 4)], []),
+  ('D-parent-M-constraint-on-child-method', 'T4', [('s.a', 'cls', 'Bm', None)], []),
+  ('D-parent-value-constraint-on-child-port', 'T5', [('s.a', 'cls', 'B', None)], []),
+  ('D-grandparent-block-reads-grandchild-port', 'T6', [('s.p.a', 'cls', 'B', None)], []),
   ('D-plain', 'T1', [('s.a', 'cls', 'B', None), ('s.a', 'cls', 'A', None)], []),
 ]
 
@@ -650,7 +720,7 @@ def run(ctx):
   cases, meta = [], []
   for tag, topc, hist, params in DIRECTED:
     run_history(ctx, tag, DIRECTED_SRC + f'\nTop = {topc}\n', hist, params, cases, meta, feats=('directed',))
-  N = 150 if quick else 1500
+  N = 150 if quick else 1200
   for j in range(N):
     g = Gen(random.Random(rng.randrange(1 << 30)), f'R{j}').build()
     history, (H0, rs) = random_history(ctx, g, j)
@@ -697,7 +767,17 @@ def main(ctx):
   try: run(ctx)
   except Exception as e:
     ctx.violation('C15:harness-crash', f'correspondence could not run: {e!r}', {'traceback': traceback.format_exc()}, found_input=False)
-  return ctx.finish(rule='7 directed minimal histories + random hierarchies (depth 1-3, single / list / 2-d list slots; children with wires, slices, constants, registers, '
+  return ctx.finish(rule='10 directed minimal histories + random hierarchies (depth 1-3, single / list / 2-d list slots; children with wires, slices, constants, registers, '
                          'update / update_ff / update_once blocks, U_U / RD_U / WR_U / M constraints, method ports; parents that connect, write, read, slice, call into their children) x random '
                          'replacement sequences (1-4, same slot repeated, inside the previous replacement, replace_component and replace_component_with_obj, optional set_param); '
                          'distinct = (design, history)')
+
+def replay(ctx, r):
+  """./check C15 --replay <file>: re-run the stored history against the current /repo and report what still diverges"""
+  setup_impl_path()
+  rp = r['replay']
+  run_history(ctx, 'replay', rp['design_source'], [tuple(h) for h in rp['history']], [(p, kw) for p, kw in rp.get('set_param', [])], [], [])
+  for key, what, path, found in ctx.violations: print(f'STILL FAILS {key}: {what[:300]}')
+  if not ctx.violations: print('history no longer diverges from the direct build')
+  shutil.rmtree(ctx.scratch, ignore_errors=True)
+  return 1 if ctx.violations else 0
